@@ -12,7 +12,7 @@ TECHNIQUE = ('runtime monitoring with a shadow model of the connection: ownershi
              'attribute state of every object compared with the model after every commit, abort and failed commit; set of records '
              'written by each commit compared with changed U newly reachable U explicitly added; second connection sees only committed data')
 RULE = ('random programs over persistent objects (root mapping + Cell graph): modify, link fresh/known/disowned objects (implicit add), '
-        'explicit add(), unlink, commit, abort, failed commits (real conflict with a second connection; foreign resource manager failing '
+        'explicit add(), unlink, savepoint, rollback, commit, abort, failed commits (real conflict with a second connection; foreign resource manager failing '
         'in tpc_begin/commit/tpc_vote sorted before and after the connection; injected raw write failure in the storage vote), close() '
         'inside a transaction (must raise), close/reopen outside, re-adding disowned objects, on FileStorage, MappingStorage and '
         'DemoStorage. After every boundary the shadow model is compared with all real objects and with a second connection. '
@@ -25,7 +25,7 @@ REQUIRED_COUNTERS = ('shadow_comparisons', 'commits', 'aborts', 'failed_commits_
                      'close_while_joined_refused', 'relinked_disowned_objects')
 
 OPS = ['modify'] * 5 + ['link'] * 6 + ['unlink'] * 2 + ['add'] * 2 + ['commit'] * 4 + ['abort'] * 2 + ['conflict', 'foreign', 'foreign', 'io-fault',
-                                                                                                  'close-joined', 'reopen', 'long-meta']
+                                                                                                  'close-joined', 'reopen', 'long-meta', 'savepoint', 'savepoint', 'rollback']
 
 
 def shards(tier, seed):
@@ -132,6 +132,10 @@ def run_case(sh, s, d, case):
             elif k == 'long-meta':
                 sw.op_storage_begin_failure(limited=(kind == 'file'))
                 failed = failed or kind == 'file'
+            elif k == 'savepoint':
+                sw.op_savepoint()
+            elif k == 'rollback':
+                sw.op_rollback()
             elif k == 'close-joined':
                 sw.op_close_while_joined()
             elif k == 'reopen':
